@@ -263,6 +263,8 @@ cfg_if! {
                 Err(e) => bail!("Read error while trying to canonicalize in read_to_string_shim {}: {}", path.display(), e),
             };
             info!("Reading file '{}'", &path.display());
+            #[cfg(mathcat_verif)]
+            crate::verif::emit("file_read", &[("path", crate::verif::json_str(&path.to_string_lossy()))]);
             match std::fs::read_to_string(&path) {
                 Ok(str) => return Ok(str),
                 Err(e) => bail!("Read error while trying to read {}: {}", &path.display(), e),
